@@ -558,6 +558,7 @@ def _run(ctx, torch, soft_one_hot_linspace, soft_unit_step, normalize2mom, momen
     import extra_oracles as _xo
 
     _xo.api_history_and_dtype(ctx, "C16")
+    _xo.c07_inplace_activation_history(ctx, normalize2mom, lambda n: torch.trapezoid(n(zq.clone()) ** 2 * wq, zq).item())
 
     ctx.notes["rule"] = (
         "soh: every (interval, number in {2,3,4,7,16,50}, basis, cutoff) x points {start, end, every centre, +-1ulp around each, "
